@@ -121,11 +121,11 @@ def e2e_pipeline(ctx, N, K, S, ir_ready, res):
             else:
                 res["ir_O2"] = open(irs[0]).read() if irs else None
             t0 = time.time()
-            so, se, rc = run_prog(out, timeout=240, mem_gib=6)
+            so, se, rc = run_prog(out, timeout=150, mem_gib=6)
             if rc == "timeout":
                 # the program synchronises by spinning; on a heavily oversubscribed machine a run can starve: one more try
                 res["t"]["retry" + opt] = True
-                so, se, rc = run_prog(out, timeout=480, mem_gib=6)
+                so, se, rc = run_prog(out, timeout=300, mem_gib=6)
             res["t"]["run" + opt] = round(time.time() - t0, 1)
             res["runs"][opt] = {"rc": rc, "stderr": se, "stdout": so}
     except HarnessBuildError as e:
@@ -330,8 +330,8 @@ def judge(sems0, progs, steps, end):
     if bad:
         # attribution: returns that read notify < ticket are the pinned tree's known class; if the others are all
         # justified without them, the violation is theirs
-        below = [w for w in need if w[2] < w[1]]
-        rest = unjustified([w for w in need if not w[2] < w[1]])
+        below = [w for w in need if less32(w[2], w[1])]
+        rest = unjustified([w for w in need if not less32(w[2], w[1])])
         if below and not rest:
             bad, key = below, K_TICKET
         else:
@@ -360,9 +360,18 @@ def judge(sems0, progs, steps, end):
             if op and op[0] == "W" and tid in tickets and tickets[tid][0] == op[1]:
                 l_, t_, drawn = tickets[tid]
                 covered = any(nl == l_ and nk == "B" and b0 is not None and b0 > drawn for (nl, nk, e, nt, b0) in notif)
-                if covered or last.lists[l_][1] > t_:
+                if covered or less32(t_, last.lists[l_][1]):
                     fails.append((None, "thread %d sleeps in notifyListWait(ticket %d) although notify=%d%s and nobody is left to wake it" %
                                   (tid, t_, last.lists[l_][1], " and a NotifyAll began after its ticket was drawn" if covered else ""),
+                                  {"thread": tid, "list": l_, "ticket": t_}))
+                    continue
+                # every NotifyOne that began after this waiter was registered found a waiter and must have made one return
+                ones_after = [e for (nl, nk, e, nt, b0) in notif if nl == l_ and nk == "O" and b0 is not None and b0 > drawn]
+                rets_after = [r for (rl, rt, rn, rtid, rd, r) in rets if rl == l_ and r > drawn]
+                if len(ones_after) > len(rets_after):
+                    fails.append((None, "thread %d sleeps in notifyListWait(ticket %d, drawn at step %d) although %d NotifyOne call(s) began after "
+                                  "that and only %d waiter(s) returned since (wait=%d notify=%d): a notification was not handed out" %
+                                  (tid, t_, drawn, len(ones_after), len(rets_after), last.lists[l_][0], last.lists[l_][1]),
                                   {"thread": tid, "list": l_, "ticket": t_}))
     return fails
 
@@ -456,8 +465,24 @@ VALUE_DFS = [  # (programs, max runs, max steps): one or two Stores against one 
 ]
 FINE_DFS = [  # (sems, programs, max runs, max steps): FINE mode (scheduling point also after every atomic access), judged only
     ("0", "A0;R0", 20000, 40), ("1", "A0;A0;R0", 12000, 50), ("0", "A0;A0;R0", 12000, 50), ("0", "A0;R0.R0", 12000, 50),
-    ("0", "W0;O0", 6000, 40), ("0", "W0;B0", 6000, 40),
+    ("0", "W0;O0", 6000, 40), ("0", "W0;B0", 6000, 40), ("0,0", "A0;A1;R0.R1", 8000, 70),
 ]
+
+
+def sem_values(sems):
+    """'1,0' / '0+0' / '0_0' -> [1, 0] ... (the separator only places the semaphores in memory)"""
+    return [int(x) for x in re.split("[,_+]", sems)]
+
+
+def c0_of(nl):
+    """'1' -> 0, '1@4294967294' -> 4294967294: the value both ticket counters of every notify list start with"""
+    nl = str(nl)
+    return int(nl.split("@")[1]) if "@" in nl else 0
+
+
+def less32(a, b):
+    """notifyLess: int32(a-b) < 0 on 32-bit tickets"""
+    return ((a - b) & 0xffffffff) >= 0x80000000
 
 
 def strip_idx(progs):
@@ -500,6 +525,7 @@ def model_rows(line, obj):
 
 # ------------------------------------------------------------------------------------------------ generators
 def gen_prog_set(rng, multi):
+    """-> (sems, notify-list spec, programs)"""
     nth = rng.choice([2, 2, 3, 3, 4])
     nadr = 2 if multi else 1
     flavour = rng.choice(["sem", "sem", "list", "mixed"])
@@ -516,17 +542,33 @@ def gen_prog_set(rng, multi):
                 k = rng.choice("ARWOB")
             ops.append("%s%d" % (k, rng.randrange(nadr)))
         progs.append(".".join(ops))
-    sems = ",".join(str(rng.choice([0, 0, 1, 1, 2, 3])) for _ in range(nadr))
-    return sems, nadr, ";".join(progs)
+    sems = str(rng.choice([0, 0, 1, 1, 2, 3]))
+    for _ in range(nadr - 1):
+        sems += rng.choice([",", ",", "+", "_"]) + str(rng.choice([0, 0, 1, 1, 2, 3]))
+    nl = str(nadr)
+    if flavour != "sem" and rng.random() < 0.5:
+        nl += "@%d" % rng.choice([0xffffffff, 0xfffffffe, 0xfffffffd, 0xfffffffc])
+    return sems, nl, ";".join(progs)
 
 
-DFS_QUICK = [  # (sems, progs, max runs, max steps, spurious budget)
+def dfs_cfg(e):
+    """(sems, progs, max runs, max steps, spurious budget[, notify-list spec]) -> with the spec defaulted to '1'"""
+    return (e[0], e[1], e[2], e[3], e[4], e[5] if len(e) > 5 else "1")
+
+
+DFS_QUICK = [  # (sems, progs, max runs, max steps, spurious budget[, notify lists '<n>@<start of the ticket counters>'])
+    # two semaphores that collide under address hashing ((addr>>3)%251): same 8-byte word / 2008 bytes apart; and 64 bytes apart
+    ("0,0", "A0;A1;R0.R1", 5000, 60, 0), ("0+0", "A0;A1;R0.R1", 5000, 60, 0), ("0_0", "A0;A1;R1.R0", 5000, 60, 0),
+    ("0,0", "A0;A1;R0;R1", 6000, 60, 0),
+    # notify-list histories that start just below the 2^32 wrap of the ticket counters
+    ("0", "W0;O0", 2000, 40, 1, "1@4294967295"), ("0", "W0;W0;O0.O0", 6000, 50, 0, "1@4294967294"),
+    ("0", "W0;W0;W0;B0", 5000, 50, 0, "1@4294967294"), ("0", "W0;O0;W0;O0", 6000, 50, 0, "1@4294967295"),
     ("0", "W0;W0", 3000, 40, 1), ("0", "W0;O0", 3000, 40, 1), ("0", "W0;B0", 3000, 40, 1), ("0", "W0;W0;O0", 4000, 40, 0),
     ("0", "W0;W0;B0", 4000, 40, 0), ("1", "A0.R0;A0.R0", 3000, 60, 0), ("0", "A0;R0", 3000, 40, 2), ("1", "A0;A0;R0", 4000, 60, 0),
     ("3", "A0;A0;A0", 2000, 60, 0), ("2", "A0;A0;A0", 4000, 60, 1), ("0", "A0;R0.R0;A0", 6000, 60, 0), ("0", "A0.W0;R0.O0", 4000, 60, 0),
     ("0", "W0.A0;O0.R0;B0", 4000, 60, 0),
 ]
-DFS_THOROUGH = [(s, p, 40000, 80, b) for (s, p, _, _, b) in DFS_QUICK] + [
+DFS_THOROUGH = [(e[0], e[1], 40000, 80, e[4]) + tuple(e[5:]) for e in DFS_QUICK] + [
     ("1", "A0.R0;A0.R0;A0.R0", 40000, 90, 0), ("0", "W0;W0;O0;O0", 40000, 80, 0), ("0", "W0;W0;W0;B0", 40000, 80, 0),
     ("2", "A0;A0;A0;R0", 40000, 80, 1), ("0", "A0;A0;R0.R0", 40000, 80, 1), ("0", "W0.W0;O0.B0", 40000, 80, 1),
 ]
@@ -580,7 +622,7 @@ def run(ctx, args):
     wit = {w["id"]: w for w in corpus["witnesses"]}
 
     def sched_line(w):
-        return "sched %s %d %s %s" % (w["sems"], w["nlists"], w["progs"], w["schedule"])
+        return "sched %s %s %s %s" % (w["sems"], w["nlists"], w["progs"], w["schedule"])
 
     def one(w):
         o, rc, err = real([sched_line(w)])
@@ -604,7 +646,7 @@ def run(ctx, args):
     runs = []      # (origin, sems, nlists, progs, raw harness answer)
     rp = json.load(open(args.replay))["replay"] if args.replay else None
     if rp is not None and "schedule" in rp and "vprogs" not in rp and "fine" not in rp:
-        o, _, _ = real(["sched %s %d %s %s" % (rp["sems"], rp["nlists"], rp["progs"], rp["schedule"])])
+        o, _, _ = real(["sched %s %s %s %s" % (rp["sems"], rp["nlists"], rp["progs"], rp["schedule"])])
         runs.append(("replay", rp["sems"], rp["nlists"], rp["progs"], o[0]))
     elif rp is not None:
         pass        # a layered request or an e2e value: replayed below / by the stress programs (N, K, S taken from the file)
@@ -615,13 +657,13 @@ def run(ctx, args):
             raise RuntimeError("native harness died on the corpus: %s" % err[-2000:])
         for w, a in zip(cl, o):
             runs.append(("corpus", w["sems"], w["nlists"], w["progs"], a))
-        dfs = DFS_QUICK
-        o, _, err = real(["dfs %s 1 %s %d %d %d" % (s, p, mr, ms, b) for (s, p, mr, ms, b) in dfs])
+        dfs = [dfs_cfg(e) for e in DFS_QUICK]
+        o, _, err = real(["dfs %s %s %s %d %d %d" % (s, nls, p, mr, ms, b) for (s, p, mr, ms, b, nls) in dfs])
         ci = 0
         for a in o:
             if a.startswith("run "):
                 s, p = dfs[ci][0], dfs[ci][1]
-                runs.append(("dfs", s, 1, p, a[4:]))
+                runs.append(("dfs", s, dfs[ci][5], p, a[4:]))
             elif a.startswith("end "):
                 stats["dfs_configs"] += 1
                 stats["dfs_complete"] += 1 if a.endswith("true") else 0
@@ -633,7 +675,7 @@ def run(ctx, args):
         for i in range(n_rand):
             multi = i % 4 == 3
             sems, nadr, progs = gen_prog_set(rng, multi)
-            lines.append("rand %s %d %s %d %d %d" % (sems, nadr, progs, rng.getrandbits(40) + 1, 120, rng.choice([0, 0, 30, 100])))
+            lines.append("rand %s %s %s %d %d %d" % (sems, nadr, progs, rng.getrandbits(40) + 1, 120, rng.choice([0, 0, 30, 100])))
             metas.append((sems, nadr, progs))
         o, _, err = real(lines)
         if len(o) != len(lines):
@@ -671,7 +713,7 @@ def run(ctx, args):
         ci = 0
         for a in o:
             if a.startswith("run "):
-                fruns.append(("dfs", FINE_DFS[ci][0], FINE_DFS[ci][1], a[4:]))
+                fruns.append(("dfs", FINE_DFS[ci][0], FINE_DFS[ci][1], a[4:], "1"))
             elif a.startswith("end "):
                 fstats["dfs_configs"] += 1
                 fstats["dfs_complete"] += 1 if a.endswith("true") else 0
@@ -681,27 +723,27 @@ def run(ctx, args):
         lines, metas = [], []
         for i in range(2500 if quick else 60000):
             sems, nadr, progs = gen_prog_set(rng, False)
-            lines.append("frand %s %d %s %d 200 %d" % (sems, nadr, progs, rng.getrandbits(40) + 1, rng.choice([0, 0, 30])))
-            metas.append((sems, progs))
+            lines.append("frand %s %s %s %d 200 %d" % (sems, nadr, progs, rng.getrandbits(40) + 1, rng.choice([0, 0, 30])))
+            metas.append((sems, progs, nadr))
         o, _, err = real(lines)
         if len(o) != len(lines):
             raise RuntimeError("native harness died during the random fine-mode runs: %s" % err[-2000:])
-        fruns += [("random", m[0], m[1], a) for m, a in zip(metas, o)]
+        fruns += [("random", m[0], m[1], a, m[2]) for m, a in zip(metas, o)]
     elif "vprogs" in rp:
         o, _, _ = real(["sched 0 1 %s %s" % (rp["vprogs"], rp["schedule"])])
         vruns.append(("replay", rp["vprogs"], o[0]))
     elif "fine" in rp:
-        o, _, _ = real(["fsched %s 1 %s %s" % (rp["fsems"], rp["fprogs"], rp["schedule"])])
-        fruns.append(("replay", rp["fsems"], rp["fprogs"], o[0]))
+        o, _, _ = real(["fsched %s %s %s %s" % (rp["fsems"], rp.get("fnl", "1"), rp["fprogs"], rp["schedule"])])
+        fruns.append(("replay", rp["fsems"], rp["fprogs"], o[0], rp.get("fnl", "1")))
     # fine-mode traces are judged against the specification right away (no model is involved)
-    for (origin, sems, progs, raw) in fruns:
+    for (origin, sems, progs, raw, fnl) in fruns:
         sc, tr, end = raw.split(" # ")
         steps = parse_trace(tr)
         fstats["runs"] += 1
         fstats["steps"] += len(steps) - 1
         fstats["random_runs"] += origin == "random"
         fstats["ends"][end.split("@")[0].split(":")[0]] = fstats["ends"].get(end.split("@")[0].split(":")[0], 0) + 1
-        for (key, what, detail) in judge([int(x) for x in sems.split(",")], parse_progs(progs), steps, end):
+        for (key, what, detail) in judge(sem_values(sems), parse_progs(progs), steps, end):
             fstats["spec_failures"] += 1
             if key is None:
                 stats["unclassified_failures"] = stats.get("unclassified_failures", 0) + 1
@@ -709,7 +751,7 @@ def run(ctx, args):
                     continue
             ctx.report(key or ("native-fine:%s:%s:%s" % (sems, progs, sc))[:300],
                        what + "  [fine mode: a scheduling point also AFTER every atomic access]",
-                       {"fine": True, "fsems": sems, "fprogs": progs, "schedule": sc, "end": end, "detail": detail, "trace_tail": tr.split("|")[-6:]})
+                       {"fine": True, "fsems": sems, "fnl": fnl, "fprogs": progs, "schedule": sc, "end": end, "detail": detail, "trace_tail": tr.split("|")[-6:]})
     fruns = None
 
     # ---- (B-N') Go's own sync primitives layered on the copied semaphore (stretch)
@@ -765,17 +807,18 @@ def run(ctx, args):
             pp = parse_progs(progs)
             steps = parse_trace(tr)
             parsed.append((pp, steps, end))
-            if single_address(pp) and "," not in sems:
+            sv = sem_values(sems)
+            if single_address(pp) and len(sv) == 1:
                 mindex.append(("whole", len(mlines)))
-                mlines.append("run %s %s %s %s" % (cfg, sems, strip_idx(progs), sc))
+                mlines.append("run %s %s@%d %s %s" % (cfg, sems, c0_of(nl), strip_idx(progs), sc))
             else:
                 objs = sorted(set((("S" if o[0] in "AR" else "L"), o[1]) for th in pp for o in th))
                 ent = []
                 for ob in objs:
                     mp, ms, rows = project(pp, steps, ob)
-                    v0 = sems.split(",")[ob[1]] if ob[0] == "S" else "0"
+                    v0 = sv[ob[1]] if ob[0] == "S" else 0
                     ent.append((ob, len(mlines), rows))
-                    mlines.append("run %s %s %s %s" % (cfg, v0, mp, ms))
+                    mlines.append("run %s %d@%d %s %s" % (cfg, v0, c0_of(nl), mp, ms))
                 mindex.append(("proj", ent))
         mout = model(mlines)
 
@@ -805,7 +848,7 @@ def run(ctx, args):
                         mismatches.append((origin, sems, nl, progs, sc, "object %s%d real %r" % (ob[0], ob[1], rows[-3:]), ml[-300:]))
                         break
             # (b) the specification on the real trace
-            sems0 = [int(x) for x in sems.split(",")]
+            sems0 = sem_values(sems)
             for (key, what, detail) in judge(sems0, pp, steps, end):
                 stats["spec_failures"] += 1
                 rp = {"sems": sems, "nlists": nl, "progs": progs, "schedule": sc, "end": end, "detail": detail,
@@ -857,20 +900,20 @@ def run(ctx, args):
     vruns = None
     if not quick and not args.replay:
         # thorough tier: more exhaustive configurations and random runs, streamed (real code -> model -> judge per batch)
-        for (s_, p_, mr, ms, b_) in DFS_THOROUGH:
-            o, _, err = real(["dfs %s 1 %s %d %d %d" % (s_, p_, mr, ms, b_)])
+        for (s_, p_, mr, ms, b_, nls_) in [dfs_cfg(e) for e in DFS_THOROUGH]:
+            o, _, err = real(["dfs %s %s %s %d %d %d" % (s_, nls_, p_, mr, ms, b_)])
             if not o or not o[-1].startswith("end "):
                 raise RuntimeError("native harness died during the exhaustive runs: %s" % err[-2000:])
             stats["dfs_configs"] += 1
             stats["dfs_complete"] += 1 if o[-1].endswith("true") else 0
-            batch = [("dfs", s_, 1, p_, a_[4:]) for a_ in o if a_.startswith("run ")]
+            batch = [("dfs", s_, nls_, p_, a_[4:]) for a_ in o if a_.startswith("run ")]
             for i in range(0, len(batch), CH):
                 process(batch[i:i + CH])
         for _ in range(30):
             lines, metas = [], []
             for i in range(CH):
                 sems, nadr, progs = gen_prog_set(rng, i % 4 == 3)
-                lines.append("rand %s %d %s %d %d %d" % (sems, nadr, progs, rng.getrandbits(40) + 1, 160, rng.choice([0, 0, 30, 100])))
+                lines.append("rand %s %s %s %d %d %d" % (sems, nadr, progs, rng.getrandbits(40) + 1, 160, rng.choice([0, 0, 30, 100])))
                 metas.append((sems, nadr, progs))
             o, _, err = real(lines)
             if len(o) != len(lines):
